@@ -91,14 +91,15 @@ func writeUsq(qname string, uq map[string]interface{}, myid int64) error {
 		return errors.New("writeUsq: failed to save query data, query name is empty")
 	}
 
+	// hold the org lock over the whole read-modify-write: a concurrent request must neither read the file
+	// while it is being rewritten nor reload it between this request's update and its write
 	acquireOrCreateLock(myid)
+	defer releaseLock(myid)
 	err := readSavedQueries(myid)
 	if err != nil {
-		releaseLock(myid)
 		log.Errorf("writeUsq: failed to read save queries, err=%v", err)
 		return errors.New("internal server error, failed to read saved queries")
 	}
-	releaseLock(myid)
 	localUSQInfoLock.Lock()
 	if _, ok := localUSQInfo[myid]; !ok {
 		localUSQInfo[myid] = make(map[string]map[string]interface{})
@@ -244,13 +245,12 @@ func deleteAllUsq(myid int64) error {
 func deleteUsq(qname string, myid int64) (bool, error) {
 
 	acquireOrCreateLock(myid)
+	defer releaseLock(myid)
 	err := readSavedQueries(myid)
 	if err != nil {
-		releaseLock(myid)
 		log.Errorf("DeleteUsq: failed to read, err=%v", err)
 		return false, err
 	}
-	releaseLock(myid)
 	localUSQInfoLock.RLock()
 	if _, ok := localUSQInfo[myid]; !ok {
 		localUSQInfoLock.RUnlock()
